@@ -18,10 +18,12 @@ Dropped w.r.t. DESIGN.md: nodeps / drop_cycles resolvers (they ignore dependenci
 promised), USE-conditional dependencies, blockers inside any-of groups, built (binary) packages.
 """
 
-from hypothesis import strategies as st  # noqa: F401
+import sys
 
 from .. import core
 from ..gen import resolverworld as RW
+
+RW.preload()
 
 ID = "C15"
 TITLE = "Successful resolutions produce dependency-closed, slot-consistent plans"
@@ -53,14 +55,29 @@ ASSUMPTIONS = [
 ]
 BUDGET = {"quick": 50, "thorough": 900}
 
-STEP_LIMIT = 5000
+STEP_LIMIT = 1500  # ~27x the largest number of steps seen in 20000 terminating resolutions
+FRAME_ALLOWANCE = 500  # python frames a resolution may nest (<=12 packages need < 150)
+
+
+def _depth():
+    f, n = sys._getframe(), 0
+    while f is not None:
+        n += 1
+        f = f.f_back
+    return n
 
 
 def resolve(world, shuffle_seed=None, step_limit=STEP_LIMIT):
     """-> dict(ok, ops, steps, failed). Raises whatever pkgcore raises (callers wrap in core.guarded)."""
     built = RW.build(world, shuffle_seed)
     r = RW.make_resolver(built, world["resolver"], step_limit)
-    ret = r.add_atoms(built["targets"], finalize=True)
+    # unbounded recursion is reported the same way with the default limit, just seconds later per case
+    old_limit = sys.getrecursionlimit()
+    sys.setrecursionlimit(min(old_limit, _depth() + FRAME_ALLOWANCE))
+    try:
+        ret = r.add_atoms(built["targets"], finalize=True)
+    finally:
+        sys.setrecursionlimit(old_limit)
     out = {"ok": not ret, "ops": RW.plan_ops(r), "steps": r._vf_steps, "failed": None}
     if ret:
         out["failed"] = [str(x) for x in ret[0]]
@@ -182,14 +199,14 @@ def evaluate(ctx, world, record=True):
 
 def plan(tier, seed):
     if tier == "quick":
-        return [{"task": "worlds", "examples": 1500} for _ in range(16)]
-    return [{"task": "worlds", "examples": 40000} for _ in range(32)]
+        return [{"task": "worlds", "examples": 400} for _ in range(16)]
+    return [{"task": "worlds", "examples": 20000} for _ in range(32)]
 
 
 def run_task(ctx, task, **kw):
     if task != "worlds":
         raise core.HarnessError(f"unknown task {task}")
-    core.hyp_run(ctx, RW.worlds("full"), lambda w: evaluate(ctx, w), kw["examples"], chunk=250)
+    RW.drive(ctx, "full", kw["examples"], lambda w: evaluate(ctx, w))
 
 
 def replay(ctx, case):
